@@ -1,0 +1,69 @@
+//go:build verif
+
+package go_clipper2
+
+// Exported aliases and accessors used only by the verification harness in /verif.
+// This file is compiled only with `-tags verif`; it adds no behaviour to the library.
+
+func VTriSign(x int64) int                        { return triSign(x) }
+func VMultiplyUInt64(a, b uint64) (lo, hi uint64) { r := multiplyUInt64(a, b); return r.Lo64, r.Hi64 }
+func VProductsAreEqual(a, b, c, d int64) bool     { return productsAreEqual(a, b, c, d) }
+func VIsCollinear(p1, p2, p3 Point64) bool        { return isCollinear(p1, p2, p3) }
+func VDotProduct64(p1, p2, p3 Point64) float64    { return dotProduct64(p1, p2, p3) }
+func VCheckPrecision(p int)                       { checkPrecision(p) }
+func VSegsIntersect(a, b, c, d Point64, inclusive bool) bool {
+	return segsIntersect(a, b, c, d, inclusive)
+}
+func VGetSegmentIntersectPt(a, b, c, d Point64) (Point64, bool) {
+	return getSegmentIntersectPt(a, b, c, d)
+}
+func VGetBounds(p Path64) Rect64        { return getBounds(p) }
+func VRectFields(r Rect64) [4]int64     { return [4]int64{r.left, r.top, r.right, r.bottom} }
+func VPtsReallyClose(a, b Point64) bool { return ptsReallyClose(a, b) }
+func VGetLocation(r Rect64, p Point64) (int, bool) {
+	l, ok := getLocation(r, p)
+	return int(l), ok
+}
+func VGetEdgesForPt(p Point64, r Rect64) uint      { return getEdgesForPt(p, r) }
+func VIsHeadingClockwise(a, b Point64, e int) bool { return isHeadingClockwise(a, b, e) }
+func VHeadingClockwise(a, b int) bool              { return headingClockwise(Location(a), Location(b)) }
+func VGetAdjacentLocation(l int, cw bool) int      { return int(getAdjacentLocation(Location(l), cw)) }
+func VAreOpposites(a, b int) bool                  { return areOpposites(Location(a), Location(b)) }
+func VHasHorzOverlap(a, b, c, d Point64) bool      { return hasHorzOverlap(a, b, c, d) }
+func VHasVertOverlap(a, b, c, d Point64) bool      { return hasVertOverlap(a, b, c, d) }
+func VIsClockwise(p, c int, pp, cp, mp Point64) bool {
+	return isClockwise(Location(p), Location(c), pp, cp, mp)
+}
+func VGetSegmentIntersection(a, b, c, d Point64) (Point64, bool) {
+	return getSegmentIntersection(a, b, c, d)
+}
+func VMinkowskiInternal(pattern, path Path64, isSum, isClosed bool) Paths64 {
+	return minkowskiInternal(pattern, path, isSum, isClosed)
+}
+func VIsOdd(v int) bool { return IsOdd(v) }
+
+// decision kernels of the sweep on a synthetic edge
+func vSynthActive(polyType PathType, isOpen bool, windDx, wc, wc2 int) *Active {
+	return &Active{windDx: windDx, windCount: wc, windCount2: wc2,
+		localMin: &LocalMinima{Vertex: &Vertex{}, PolyType: polyType, IsOpen: isOpen}}
+}
+func VIsContributingClosed(fr FillRule, ct ClipType, polyType PathType, wc, wc2 int) bool {
+	c := newClipperBase()
+	c.fillRule, c.clipType = fr, ct
+	return c.isContributingClosed(vSynthActive(polyType, false, 1, wc, wc2))
+}
+func VIsContributingOpen(fr FillRule, ct ClipType, wc, wc2 int) bool {
+	c := newClipperBase()
+	c.fillRule, c.clipType = fr, ct
+	return c.isContributingOpen(vSynthActive(Subject, true, 1, wc, wc2))
+}
+
+// options that only ClipperOffset can set today
+func (c *clipper64) VSetOptions(preserveCollinear, reverseSolution bool) {
+	c.preserveCollinear = preserveCollinear
+	c.reverseSolution = reverseSolution
+}
+func (c *clipperD) VSetOptions(preserveCollinear, reverseSolution bool) {
+	c.preserveCollinear = preserveCollinear
+	c.reverseSolution = reverseSolution
+}
